@@ -16,7 +16,6 @@ func ret(err error) string { return "ret" }
 // exact returns a copy whose capacity equals its length.
 func exact(b []byte) []byte { return withCap(b, nil) }
 
-
 func dhcpHandler(s *packet.Session) *dhcp4_spoofer.Handler {
 	f, _ := os.CreateTemp("", "c08lease")
 	name := f.Name()
